@@ -61,6 +61,19 @@ class C18(PropBase):
                 out.append(Case('w_create', ['', '%s/%s/%s/%s' % (base, ver(vs[0]), st2, ext), []], 'setup', m))
                 out.append(Case('get_last', [['s', '%s/%s/%s/%s' % (base, ver(vs[0]), st2, ext)], 'version'], 'query2', m))
                 out.append(Case('publish_chain', ['', '%s/%s/%s/%s' % (base, ver(vs[0]), st2, ext), str(min(k, 4))], 'chain2', dict(m, k=min(k, 4), start=vs[0])))
+        # the first publish of a task: lookups while nothing exists below the asset / shot (not even the task folder), then
+        # create(get_new) repeatedly and the lookups again, in one process
+        for base, st, ext in bases:
+            hid += 1
+            parent = '/'.join(base.split('/')[:-1])
+            first = '%s/%s/%s/%s' % (base, ver(1), st, ext)
+            m = {'h': hid, 'base': base, 'vs': [], 'st': st, 'ext': ext}
+            out.append(Case('fs_reset', [], 'setup', m))
+            out.append(Case('w_create', ['', parent, []], 'setup', m))
+            out.append(Case('get_last', [['s', first], 'version'], 'query2', m))
+            out.append(Case('get_new', [['s', first], 'version'], 'query2', m))
+            out.append(Case('publish_chain', ['', first, '3'], 'chain2', dict(m, k=3, start=0)))
+            out.append(Case('get_last', [['s', first], 'version'], 'query2', m))
         # a second state lagging behind in already existing version folders (search, create, search again in one process)
         for base, st, ext in bases:
             hid += 1
